@@ -86,8 +86,41 @@ class Folder:
         self._in_progress.discard(modname)
         return env
 
+    def _via_interpreter(self, modname: str, name: str):
+        """Second opinion for a table the constant folder cannot evaluate (it calls a function the folder does not inline):
+        the module-level expression is interpreted by the abstract interpreter; only plain data comes back."""
+        from fractions import Fraction
+        from sa.sym import Interp, Closure, ClassRef, Undecided, PyRaise, _unh
+
+        def conv(v):
+            if isinstance(v, dict):
+                return {_unh(k): conv(x) for k, x in v.items() if k != "__default_factory__"}
+            if isinstance(v, (list, tuple)):
+                return type(v)(conv(x) for x in v)
+            if isinstance(v, (set, frozenset)):
+                return type(v)(conv(_unh(x)) for x in v)
+            if isinstance(v, Closure):
+                return Ref(v.mod.name, v.name, "function")
+            if isinstance(v, ClassRef):
+                return Ref(v.module, v.name, "class")
+            if isinstance(v, Fraction):
+                return int(v) if v.denominator == 1 else float(v)
+            if v is None or isinstance(v, (str, int, float, bool)):
+                return v
+            raise ValueError(type(v).__name__)
+
+        try:
+            it = Interp(self.repo)
+            return conv(it.module_ns(self.repo[modname], name))
+        except (Undecided, PyRaise, ValueError, KeyError, AttributeError, TypeError):
+            return None
+
     def table(self, modname: str, name: str, require=True):
         env = self.module_env(modname)
+        if name in env and isinstance(env[name], Opaque):
+            alt = self._via_interpreter(modname, name)
+            if alt is not None:
+                env[name] = alt
         if name not in env or isinstance(env[name], Opaque):
             if require:
                 raise AnalysisError(f"table {modname}.{name} could not be folded ({env.get(name, 'absent')})")
